@@ -1,8 +1,14 @@
 #!/usr/bin/env python3
-"""MANIFEST.setup_cmd: full .vo build of the Coq development from files on disk (offline)."""
-import os, sys, subprocess
+"""MANIFEST.setup_cmd: full .vo build (never -vos) of every registered property's Coq closure, offline."""
+import glob, json, os, sys, subprocess
 sys.path.insert(0, os.path.dirname(os.path.abspath(__file__)))
 import check
 check.coq_project()
-rc = subprocess.call("make -j16", shell=True, cwd=check.COQ)
+targets = []
+for p in sorted(glob.glob(os.path.join(check.VERIF, "props", "C*.json"))):
+    pr = json.load(open(p))
+    if pr.get("props_file"):
+        targets.append(pr["props_file"][:-2] + ".vo")
+    targets += [t[:-2] + ".vo" for t in pr.get("extra_coq", [])]
+rc = subprocess.call("make -j16 " + " ".join(sorted(set(targets))), shell=True, cwd=check.COQ)
 sys.exit(rc)
